@@ -113,6 +113,17 @@ Section Layout.
 
   Variable nv : nat.
 
+  Lemma opos_lt (i j k c : nat) :
+    (i < nx)%nat -> (j < ny)%nat -> (k < nz)%nat -> (c < nv)%nat ->
+    (opos nx ny nv i j k c < nz * (ny * (nx * nv)))%nat.
+  Proof.
+    intros Hi Hj Hk Hc. unfold opos.
+    assert (A1 : (k * ny + j + 1 <= nz * ny)%nat) by nia.
+    assert (A2 : ((k * ny + j) * nx + i + 1 <= nz * ny * nx)%nat) by nia.
+    assert (A3 : (((k * ny + j) * nx + i) * nv + c + 1 <= (nz * ny * nx) * nv)%nat) by nia.
+    lia.
+  Qed.
+
   Lemma comps_length (a : list V) i j k : length (comps d ny nz nv a i j k) = nv.
   Proof. unfold comps. rewrite map_length, seq_length. reflexivity. Qed.
 
@@ -165,11 +176,11 @@ Section Layout.
     length a = (nx * (ny * (nz * nv)))%nat ->
     tab nx (fun i => tab ny (fun j => tab nz (fun k => comps d ny nz nv a i j k))) = a.
   Proof.
-    intros HL. rewrite <- (blk_all d a) at 2. rewrite HL.
-    rewrite (blk_split d a (ny * (nz * nv)) nx 0). unfold tab.
+    intros HL. transitivity (blk V d a 0 (length a)); [|apply blk_all]. rewrite HL.
+    rewrite (blk_split V d a (ny * (nz * nv)) nx 0). unfold tab.
     apply flat_map_ext_in. intros i _.
-    rewrite (blk_split d a (nz * nv) ny). apply flat_map_ext_in. intros j _.
-    rewrite (blk_split d a nv nz). apply flat_map_ext_in. intros k _.
+    rewrite (blk_split V d a (nz * nv) ny). apply flat_map_ext_in. intros j _.
+    rewrite (blk_split V d a nv nz). apply flat_map_ext_in. intros k _.
     unfold blk, comps, cpos. apply map_ext. intros c. f_equal. ring.
   Qed.
 
@@ -178,9 +189,9 @@ Section Layout.
     length a = (nx * (ny * (nz * nv)))%nat ->
     from_ovf_order d nx ny nz nv (to_ovf_order d nx ny nz nv a) = a.
   Proof.
-    intros HL. rewrite <- (retab a HL) at 2. unfold from_ovf_order, tab.
+    intros HL. transitivity (tab nx (fun i => tab ny (fun j => tab nz (fun k => comps d ny nz nv a i j k)))); [|apply retab; exact HL]. unfold from_ovf_order, tab.
     apply flat_map_ext_in. intros i Hi. apply flat_map_ext_in. intros j Hj.
-    apply flat_map_ext_in. intros k Hk. unfold comps at 2.
+    apply flat_map_ext_in. intros k Hk. unfold comps.
     apply in_seq in Hi. apply in_seq in Hj. apply in_seq in Hk.
     apply map_ext_in. intros c Hc. apply in_seq in Hc.
     apply to_ovf_order_nth; lia.
@@ -200,8 +211,8 @@ Section Layout.
       assert (LL : length (map g (to_ovf_order d nx ny nz nv a)) = (nx * ny * nz * nv)%nat)
         by (rewrite map_length, to_ovf_order_length; ring).
       rewrite <- LL at 1. rewrite firstn_all. rewrite LL, Nat.sub_diag. simpl. apply app_nil_r. }
-    rewrite E. rewrite <- (from_to_ovf_order a HL) at 2.
-    rewrite map_map.
+    rewrite E. transitivity (map (fun v => h (g v)) (from_ovf_order d nx ny nz nv (to_ovf_order d nx ny nz nv a))); [|rewrite (from_to_ovf_order a HL); reflexivity].
+    rewrite <- (map_map g h).
     (* from_ovf_order commutes with map on in-range positions *)
     unfold from_ovf_order, tab.
     rewrite !flat_map_concat_map, !concat_map, !map_map. f_equal.
@@ -211,7 +222,7 @@ Section Layout.
     apply in_seq in Hi. apply in_seq in Hj. apply in_seq in Hk.
     apply map_ext_in. intros c Hc. apply in_seq in Hc.
     rewrite (nth_indep _ d (g d)).
-    2:{ rewrite map_length, to_ovf_order_length. unfold opos. nia. }
+    2:{ rewrite map_length, to_ovf_order_length. apply opos_lt; lia. }
     rewrite map_nth. reflexivity.
   Qed.
 End Layout.
